@@ -40,6 +40,19 @@ let () =
            let z = qlist (expect ic "Z") in
            let d = qlist (expect ic "D") in
            Printf.printf "A %s %s\n" id (string_of_bool (check_ray (infp_of sem) p z d))
+         | "dz", [] ->
+           let hdr = (match next_tokens ic with Some h -> h | None -> failwith "eof") in
+           let (p, _) = read_ilp ic hdr in
+           let y = qlist (expect ic "Y") in
+           Printf.printf "A %s %s\n" id (String.concat " " (List.map (fun c -> string_of_q (dz_l y c)) p.i_cols))
+         | "toint", [] ->
+           (* ILP block (as dumped from the library's internal arrays) then ULP block (query API):
+              true iff to_internal(ULP) denotes the same internal LP *)
+           let hdr = (match next_tokens ic with Some h -> h | None -> failwith "eof") in
+           let (p, _) = read_ilp ic hdr in
+           let hdr = (match next_tokens ic with Some h -> h | None -> failwith "eof") in
+           let (u, _, _) = read_ulp ic hdr in
+           Printf.printf "A %s %s\n" id (string_of_bool (wf_ulp u && ilp_eqb (to_internal !sentinel u) p))
          | _ -> Printf.printf "A %s UNKNOWN-QUERY\n" id)
       with Failure m -> Printf.printf "A %s PARSE-ERROR %s\n" id m);
       flush stdout; loop ()
